@@ -262,7 +262,8 @@ def units_in_order(names):
 def _unpack_contracts():
     out = []
     # the kernel's order: nonlinear, K, v0, offsets, then trend terms; and the nonlinear-only prefix (5 columns of a longer units table)
-    for label, names, npars in (("nonlinear+K,v0", ALLP, 7), ("with-offset-and-trend", NL + ["K", "v0", "dv0_1", "v1"], 9), ("first-5-of-7", ALLP, 5)):
+    for label, names, npars in (("nonlinear+K,v0", ALLP, 7), ("with-offset-and-trend", NL + ["K", "v0", "dv0_1", "v1"], 9), ("first-5-of-7", ALLP, 5),
+                                 ("keys-in-another-order", ["e", "omega", "M0", "s", "P", "v0", "K"], 7)):
         ens = {"one-column-per-packed-column-in-the-order-of-the-units-table": "list(result.tbl.colnames) == " + repr(list(names[:npars])),
                "metadata-from-the-keywords": "result.tbl.meta['t_ref'] is kwargs['t_ref'] and result.tbl.meta['poly_trend'] is kwargs['poly_trend'] and "
                                              "result.tbl.meta['n_offsets'] is kwargs['n_offsets']"}
